@@ -228,7 +228,9 @@ func (p *ProofD) validate(pk *gabikeys.PublicKey) error {
 		}
 	}
 	for i, attribute := range p.ADisclosed {
-		if i < 0 || i >= len(pk.R) || attribute == nil {
+		// (Attribute values are nonnegative. The hash that stands in for a value longer than the
+		// message length does not see the sign, so that -x would verify where x was signed.)
+		if i < 0 || i >= len(pk.R) || attribute == nil || attribute.Sign() < 0 {
 			return errors.New("invalid disclosed attribute in ProofD")
 		}
 		// An attribute that is both disclosed and hidden could be split into an arbitrary
